@@ -4,7 +4,8 @@
 (*                                                                         *)
 (* State S1 of DESIGN.md: the growing lists `variables`, `constraints`,    *)
 (* `is_answer_key`, and the `sol` slot of every variable.  One action per  *)
-(* public call.  What find_answer / solve must establish is written once,  *)
+(* public call (bool_var / int_var, bool_array / int_array, ensure,        *)
+(* add_answer_key, find_answer, solve). What find_answer / solve must establish is written once,  *)
 (* as the predicates FindVerdict / SolveVerdict, and used both by the      *)
 (* abstract actions below (model checking, scenario generation) and by the *)
 (* trace specification (Trace_Session.tla) that judges the real code.      *)
@@ -106,6 +107,17 @@ Declare(v) ==
                                                 ELSE [a |-> "int_var", lo |-> v.lo, hi |-> v.hi])
     /\ UNCHANGED <<cons, keys, last>>
 
+(* bool_array(shape) / int_array(shape, lo, hi): one call declares all cells, numbered consecutively in *)
+(* row-major order; shape is <<n>> or <<h, w>> (zero-sized arrays are legal and declare nothing)       *)
+Cells(shape) == IF Len(shape) = 1 THEN shape[1] ELSE shape[1] * shape[2]
+DeclareArray(v, shape) ==
+    /\ Len(decl) + Cells(shape) <= MaxDecl
+    /\ decl' = decl \o [i \in 1 .. Cells(shape) |-> v]
+    /\ sol' = sol \o [i \in 1 .. Cells(shape) |-> NoneSlot]
+    /\ hist' = Append(hist, IF v.kind = "bool" THEN [a |-> "bool_array", shape |-> shape]
+                                                ELSE [a |-> "int_array", shape |-> shape, lo |-> v.lo, hi |-> v.hi])
+    /\ UNCHANGED <<cons, keys, last>>
+
 Ensure(x) ==
     /\ Len(cons) < MaxEnsure
     /\ LET posted == Posted(x) IN
@@ -158,7 +170,9 @@ Solve ==
                              ELSE IF nk THEN NoneSlot ELSE Slot(decl[k].kind, m[k])])
     ELSE \E s \in {sol, AllNone(decl)} : SolveWith(FALSE, s)
 
+ArrayShapes == {<<n>> : n \in 0 .. 3} \cup {<<h, w>> : h \in 0 .. 2, w \in 1 .. 2}
 Next == \/ \E v \in VarTemplates : Declare(v)
+        \/ \E v \in VarTemplates : \E sh \in ArrayShapes : DeclareArray(v, sh)
         \/ \E x \in Pool(decl) : Ensure(x)
         \/ \E k \in DOMAIN decl : AddKey(k)
         \/ FindAnswer
